@@ -61,6 +61,17 @@ func cmdRecord(args []string) int {
 	for s := 0; s < *sessions; s++ {
 		recipe := GenRecipe(rng, GenOpts{NoUnsafe: *noUnsafe, NoStyles: *noStyles})
 		if fl := splitProps(*fixed); len(fl) > 0 {
+			// a decoy first: some other policy derived from a shipped constructor is built, extended and used
+			// in the same process before the policy under test is constructed
+			decoy := append(Recipe{}, recipe...)
+			decoy[0] = Call{M: []string{"UGCPolicy", "StrictPolicy", "NewPolicy"}[s%3]}
+			decoy[0].norm()
+			decoy = append(decoy, Call{M: "AllowStyles", Props: []string{"color"}, Scope: "els", Els: []string{"span", "p", "a"}},
+				Call{M: "AllowAttrs", Attrs: []string{"style", "onclick"}, Scope: "glob"}, Call{M: "AllowElements", Names: []string{"script", "iframe", "form"}})
+			for i := range decoy {
+				decoy[i].norm()
+			}
+			BuildReal(decoy).Sanitize(`<p style="color: red" onclick="x">d<script>1</script></p>`)
 			m := map[string]string{"ugc": "UGCPolicy", "strict": "StrictPolicy", "new": "NewPolicy"}[fl[s%len(fl)]]
 			c := Call{M: m}
 			c.norm()
